@@ -1,7 +1,7 @@
 from __future__ import annotations
 
 import re
-from dataclasses import dataclass, field
+from dataclasses import InitVar, dataclass, field
 from enum import Enum, auto
 from typing import TYPE_CHECKING, Any, Literal
 
@@ -449,9 +449,19 @@ class SigmaCorrelationRule(SigmaRuleBase, ProcessingItemTrackingMixin):
         default_factory=list, init=False, repr=False, compare=False
     )
     source: SigmaRuleLocation | None = field(default=None, compare=False)
+    collect_errors: InitVar[bool] = False
 
-    def __post_init__(self: Self) -> None:
+    def __post_init__(self: Self, collect_errors: bool = False) -> None:
         super().__post_init__()
+        try:
+            self._validate()
+        except sigma_exceptions.SigmaError as e:
+            if not collect_errors:
+                raise
+            self.errors.append(e)  # collecting mode: reported with the other errors
+
+    def _validate(self: Self) -> None:
+        """Cross-field validation of the correlation rule."""
         # Validate rules is not None unless extended correlation condition is defined
         if self.rules is None and not isinstance(self.condition, SigmaExtendedCorrelationCondition):
             raise sigma_exceptions.SigmaCorrelationRuleError(
@@ -731,6 +741,7 @@ class SigmaCorrelationRule(SigmaRuleBase, ProcessingItemTrackingMixin):
             aliases=aliases,
             condition=condition,
             errors=errors,
+            collect_errors=collect_errors,
             **kwargs,
         )
 
